@@ -23,7 +23,7 @@ func checkCli(c Case) error {
 	case "graft":
 		tips := c.Tree.TipNodes()
 		tip := tips[c.Sel%len(tips)].Name
-		return cli.DifferentialOut([]string{"graft", "-c", "graft.nw", "-l", tip}, text, map[string]string{"graft.nw": ref.Write(c.Other) + "\n"}, c15out(c), func() (string, error) {
+		return cli.DifferentialIn([]string{"graft", "-c", "graft.nw", "-l", tip}, text, map[string]string{"graft.nw": ref.Write(c.Other) + "\n"}, c15out(c), c15in(c), func() (string, error) {
 			t, err := load(c.Tree, false)
 			if err != nil {
 				return "", err
@@ -41,7 +41,7 @@ func checkCli(c Case) error {
 			return t.Newick() + "\n", nil
 		})
 	case "merge":
-		return cli.DifferentialOut([]string{"merge", "-i", "a.nw", "-c", "b.nw"}, "", map[string]string{"a.nw": text, "b.nw": ref.Write(c.Other) + "\n"}, c15out(c), func() (string, error) {
+		return cli.DifferentialIn([]string{"merge", "-i", "a.nw", "-c", "b.nw"}, "", map[string]string{"a.nw": text, "b.nw": ref.Write(c.Other) + "\n"}, c15out(c), c15in(c), func() (string, error) {
 			a, err := load(c.Tree, false)
 			if err != nil {
 				return "", err
@@ -66,7 +66,7 @@ func checkCli(c Case) error {
 		for _, grp := range c.Groups {
 			g.WriteString(strings.Join(grp, ",") + "\n")
 		}
-		return cli.DifferentialOut([]string{"repopulate", "-g", "groups.txt"}, text, map[string]string{"groups.txt": g.String()}, c15out(c), func() (string, error) {
+		return cli.DifferentialIn([]string{"repopulate", "-g", "groups.txt"}, text, map[string]string{"groups.txt": g.String()}, c15out(c), c15in(c), func() (string, error) {
 			t, err := load(c.Tree, false)
 			if err != nil {
 				return "", err
@@ -89,7 +89,7 @@ func checkCli(c Case) error {
 		for _, m := range stream {
 			in += ref.Write(m) + "\n"
 		}
-		return cli.DifferentialOut([]string{"collapse", "single"}, in, nil, c15out(c), func() (string, error) {
+		return cli.DifferentialIn([]string{"collapse", "single"}, in, nil, c15out(c), c15in(c), func() (string, error) {
 			out := ""
 			for _, m := range stream {
 				t, err := load(m, false)
@@ -113,7 +113,7 @@ func checkCli(c Case) error {
 			return nil
 		}
 		name := named[c.Sel%len(named)].Name
-		return cli.DifferentialOut([]string{"subtree", "-n", "^" + name + "$"}, text, nil, c15out(c), func() (string, error) {
+		return cli.DifferentialIn([]string{"subtree", "-n", "^" + name + "$"}, text, nil, c15out(c), c15in(c), func() (string, error) {
 			t, err := load(c.Tree, false)
 			if err != nil {
 				return "", err
@@ -133,7 +133,7 @@ func checkCli(c Case) error {
 func TestC15Cli(t *testing.T) {
 	h.Run(t, h.Spec[Case]{
 		Property: "C15", Name: "cli", Quick: 1600, Thorough: 32000,
-		Rule: "`gotree graft -c -l`, `merge -i -c`, `repopulate -g`, `collapse single`, `subtree -n` on the generated cases of the library check (incl. the refused ones: overlapping tips, unrooted input, bad identical groups): the printed tree must be byte-identical to what the library call gives, or both must report an error; non-trivial = multifurcating or rooted tree",
+		Rule: "`gotree graft -c -l`, `merge -i -c`, `repopulate -g`, `collapse single`, `subtree -n` on the generated cases of the library check (incl. the refused ones: overlapping tips, unrooted input, bad identical groups), the input on stdin, in a file, in a gzip file or as a Nexus document (--format nexus, the grafted tree too): the printed tree must be byte-identical to what the library call gives, or both must report an error; non-trivial = multifurcating or rooted tree",
 		Gen: func(t *rapid.T, thorough bool) Case {
 			for {
 				c := genCase(t, false)
@@ -157,6 +157,9 @@ func TestC15Cli(t *testing.T) {
 var _ = gt.Parse
 
 // c15out: a third of the cases write the result with -o file instead of stdout (drawn with the case: Sel).
+// c15in: how the input stream is handed over (stdin, file, gzip file, Nexus document), drawn with the case.
+func c15in(c Case) string { return cli.InModes[(c.Sel/3)%len(cli.InModes)] }
+
 func c15out(c Case) string {
 	if c.Sel%3 == 0 {
 		return "-o"
